@@ -354,7 +354,15 @@ def a_observe(store, scn, where, out):
 
 
 def run_a(scn, real_argparse=False):
-    mlog._logger.log_disable_stdout = True
+    saved = mlog._logger.log_disable_stdout
+    mlog._logger.log_disable_stdout = True      # restored below: forked tier-B children must log normally
+    try:
+        return _run_a(scn, real_argparse)
+    finally:
+        mlog._logger.log_disable_stdout = saved
+
+
+def _run_a(scn, real_argparse):
     em = _envmods()
     res = {'rejected': None, 'obs': {}, 'bad': [], 'crash': None}
     stage = 'new'
@@ -515,7 +523,9 @@ def fam_top(names, cross, dict_form, mstr, decoy=False, with_sub=False):
                         continue
                     put(scn, s, name, val[s], mstr)
                     present[s] = val[s]
-                if decoy and cross and proj:
+                if decoy and cross and not k.get('permachine'):
+                    # Machine-files.md: "if doing a cross build the options from the native file will be ignored"; only per-machine
+                    # options take values from both files
                     put(scn, 'N', name, vals[(digit(IDX['M'], a, n, nd) + 1) % n], mstr)
                 scn['obs'] = [['top', name]]
                 e = ref_top(present, default)
@@ -1126,13 +1136,20 @@ def merge_cases(cases, fam):
     return out
 
 
-def msg_lines(where, obs):
+def obs_is_feature(scn, where, name):
+    for n, kind, _, _ in (scn['sub_decl'] if where == 'sub' else scn['top_decl']):
+        if n == name:
+            return PK[kind]['type'] == 'feature'
+    k = kind_of(name)
+    return k is not None and k['type'] == 'feature' and name in ALLK
+
+
+def msg_lines(scn, where):
     out = []
-    for w, name in obs:
+    for w, name in scn['obs']:
         if w != where and not (where == 'top2' and w == 'top'):
             continue
-        k = kind_of(name)
-        if k is not None and k['type'] == 'feature':
+        if obs_is_feature(scn, where, name):
             out.append("message('VERIF|%s|%s|F', [get_option('%s').enabled(), get_option('%s').disabled(), get_option('%s').auto()], '|END')"
                        % (where, name, name, name, name))
         else:
@@ -1144,12 +1161,12 @@ def b_tree(scn):
     files = {}
     langs = ", 'c'" if scn['langs'] else ''
     top = ["project('top'%s, meson_version: '>= 1.8.0', default_options: %s)" % (langs, lit_do(defopts_arg(scn['P'], scn['dict_form'])))]
-    top += msg_lines('top', scn['obs'])
+    top += msg_lines(scn, 'top')
     if scn['has_sub']:
         top.append("subproject('%s', default_options: %s)" % (SUB, lit_do(defopts_arg(scn['SC'], scn['dict_form']))))
-        top += msg_lines('top2', scn['obs'])
+        top += msg_lines(scn, 'top2')
         sub = ["project('%s'%s, meson_version: '>= 1.8.0', default_options: %s)" % (SUB, langs, lit_do(defopts_arg(scn['S'], scn['dict_form'])))]
-        sub += msg_lines('sub', scn['obs'])
+        sub += msg_lines(scn, 'sub')
         sub.append("message('VERIF-SUBDONE')")
         files['subprojects/%s/meson.build' % SUB] = '\n'.join(sub) + '\n'
         if scn['sub_decl']:
@@ -1287,3 +1304,288 @@ def work_b(case):
         agree = bool(ra['rejected']) == bool(res['rejected']) and all(
             (kind_of(k.split(':')[-1]) or {}).get('type') == 'feature' or oa.get(k) == v for k, v in res['obs'].items())
     return probs, st, outcome_class(case, res), (res['rejected'][0] if res['rejected'] else None), agree
+
+
+# ------------------------------------------------------------------------------------------------------------
+def group_merge(cases, fam, keyfn):
+    groups = {}
+    for c in cases:
+        if 'skip' in c:
+            continue
+        groups.setdefault(keyfn(c), []).append(c)
+    return [merge_cases(v, fam) for _, v in sorted(groups.items(), key=lambda kv: repr(kv[0]))]
+
+
+def tier_a_tasks(ck):
+    """(generator name, kwargs) specs; every spec is expanded and executed inside a worker, sharded NSHARD ways."""
+    all_names = list(PK) + list(BK) + list(LK)
+    persub = [n for n in list(BK) + list(LK) if ALLK[n]['persub']]
+    forms = [(False, False), (True, True)] if not ck.thorough else [(False, False), (False, True), (True, False), (True, True)]
+    specs = []
+    for cross in (False, True):
+        for df, ms in forms:
+            specs.append(('fam_top', dict(names=all_names, cross=cross, dict_form=df, mstr=ms, decoy=cross)))
+    specs.append(('fam_permachine', dict(names=['pkg_config_path', 'cmake_prefix_path', 'c_std'])))
+    sub_forms = [(False, False, False), (True, True, True)] if not ck.thorough else \
+        [(c, d, m) for c in (False, True) for d in (False, True) for m in (False, True)]
+    for cross, df, ms in sub_forms:
+        specs.append(('fam_sub', dict(mode='bsub', names=persub, cross=cross, dict_form=df, mstr=ms)))
+        for mode in ('pnon', 'pyield', 'pyieldT', 'pnon0', 'pyield0'):
+            specs.append(('fam_sub', dict(mode=mode, names=list(PK), cross=cross, dict_form=df, mstr=ms)))
+    specs.append(('fam_buildtype_top', dict()))
+    specs.append(('fam_buildtype_top_argparse', dict()))
+    if ck.thorough:
+        specs.append(('fam_buildtype_top', dict(cross=True, dict_form=True)))
+    specs.append(('fam_buildtype_sub', dict(max_sources=2)))
+    for cross in (False, True):
+        specs.append(('fam_prefix', dict(cross=cross)))
+        specs.append(('fam_invalid', dict(cross=cross)))
+        specs.append(('fam_conf', dict(cross=cross)))
+    return specs
+
+
+def fam_buildtype_top_argparse():
+    """buildtype family with the command line going through the real argparse actions of cmdline.py."""
+    for c in fam_buildtype_top():
+        c['argparse'] = True
+        c['fam'] = 'buildtype-top-argparse'
+        yield c
+
+
+NSHARD = 16
+
+
+def work_a_task(task):
+    (gname, kwargs), shard = task
+    agg = {'n': 0, 'skipped_cases': 0, 'classes': set(), 'fams': {}, 'tot': {}, 'multi': 0, 'late_rej': 0, 'problems': [], 'sample': None}
+    perkey = {}
+    cases = list(globals()[gname](**kwargs))
+    mine = [c for i, c in enumerate(cases) if i % NSHARD == shard]
+    mine.sort(key=lambda c: c['meta'].get('nsrc', 0))            # simplest first
+    for case in mine:
+        if 'skip' in case:
+            agg['skipped_cases'] += 1
+            continue
+        probs, st, cls, rstage = work_a(case)
+        agg['n'] += 1
+        agg['classes'].add('A:' + cls)
+        f = agg['fams'].setdefault(case['fam'], {'cases': 0, 'violating': 0})
+        f['cases'] += 1
+        for k, v in st.items():
+            agg['tot'][k] = agg['tot'].get(k, 0) + v
+        if case['meta'].get('nsrc', 0) >= 3:
+            agg['multi'] += 1
+        if rstage in ('top-late', 'sub-late'):
+            agg['late_rej'] += 1
+        if agg['sample'] is None and case['meta'].get('nsrc', 0) >= 3:
+            agg['sample'] = {'scn': case['scn'], 'expected': case['exp']}
+        if probs:
+            f['violating'] += 1
+            keep = []
+            for key, what in probs:
+                perkey[key] = perkey.get(key, 0) + 1
+                if perkey[key] <= 3:
+                    keep.append((key, what))
+                else:
+                    agg.setdefault('more', {})
+                    agg['more'][key] = agg['more'].get(key, 0) + 1
+            if keep:
+                agg['problems'].append((case, keep))
+    return agg
+
+
+def tier_b_cases(ck):
+    seed = ck.seed
+    out = []
+    nolate = list(PK) + list(BK)
+    persub = [n for n in BK if BK[n]['persub']]
+    # ---- top level 2^4
+    tops = [(False, False, False), (True, True, True)] if not ck.thorough else \
+        [(c, d, m) for c in (False, True) for d in (False, True) for m in (False, True)]
+    for cross, df, ms in tops:
+        cs = list(fam_top(nolate, cross, df, ms, decoy=cross, with_sub=False))
+        # built-in kinds have no D bit: they ride along with both D variants of the project kinds
+        both = []
+        for c in cs:
+            if c['meta']['name'] in PK:
+                both.append((('D' in c['meta']['subset'], tuple(s for s in c['meta']['subset'] if s != 'D'), c['meta']['a']), c))
+            else:
+                for d in (False, True):
+                    both.append(((d, tuple(c['meta']['subset']), c['meta']['a']), c))
+        groups = {}
+        for k, c in both:
+            groups.setdefault(k, []).append(c)
+        for k in sorted(groups):
+            m = merge_cases(groups[k], 'top')
+            m['meta']['subset'] = (['D'] if k[0] else []) + list(k[1])
+            out.append(m)
+    # ---- per machine (cross)
+    pm = list(fam_permachine(['pkg_config_path', 'cmake_prefix_path']))
+    if not ck.thorough:
+        pm = [c for c in pm if c['meta']['a'] == seed % 3]
+    out += group_merge(pm, 'permachine', lambda c: (tuple(c['meta']['subset']), c['meta']['a']))
+    # ---- subproject 2^8
+    subs = [(False, False, False, None), (True, True, True, seed % 3)] if not ck.thorough else \
+        [(False, False, False, None), (True, True, True, None), (False, True, True, None), (True, False, False, None)]
+    for cross, df, ms, only_a in subs:
+        cs = list(fam_sub('bsub', persub, cross, df, ms))
+        for mode in ('pnon', 'pyield', 'pyieldT', 'pnon0', 'pyield0'):
+            cs += list(fam_sub(mode, list(PK), cross, df, ms))
+        if only_a is not None:
+            cs = [c for c in cs if 'skip' in c or c['meta']['a'] == only_a]
+        out += group_merge(cs, 'sub', lambda c: (tuple(c['meta']['subset']), c['meta']['a']))
+    # ---- options that only exist once a compiler has been detected (real gcc): pending values
+    late = list(LK)
+    lt = list(fam_top(late, False, False, False))
+    out += group_merge(lt, 'top-late', lambda c: (tuple(c['meta']['subset']), c['meta']['a']))
+    ls = list(fam_sub('bsub', ['c_std'], False, False, False))
+    if not ck.thorough:
+        ls = [c for c in ls if c['meta']['a'] == (seed + 1) % 3]
+    out += group_merge(ls, 'sub-late', lambda c: (tuple(c['meta']['subset']), c['meta']['a']))
+    # ---- buildtype
+    bt = list(fam_buildtype_top())
+    if not ck.thorough:
+        bt = [c for c in bt if c['meta']['nsrc'] <= 2 and c['meta']['a'] == seed % 3]
+    out += bt
+    bs = list(fam_buildtype_sub(max_sources=2 if ck.thorough else 1))
+    out += bs
+    # ---- prefix, invalid
+    out += list(fam_prefix())
+    if ck.thorough:
+        out += list(fam_prefix(cross=True))
+    iv = [c for c in fam_invalid() if 'skip' not in c]
+    if not ck.thorough:
+        iv = [c for c in iv if c['meta']['other'] is None]
+    out += iv
+    for c in out:
+        c['compare_a'] = not c['scn']['langs']
+    return out
+
+
+def report(ck, tier, case, probs, rerun):
+    for key, what in probs:
+        known = any(k.get('status') == 'known' and k['key'] == key for k in ck.known)
+        if not known and ck._seen_keys.get(key, 0) < 3:
+            # determinism: the reported class must reproduce when the case is executed again
+            again = rerun(case)[0]
+            if key not in [k for k, _ in again]:
+                ck.internal('violation %s did not reproduce on re-execution (nondeterminism): %s' % (key, what))
+        ck.violation(key, what, {'tier': tier, 'case': case})
+
+
+def main():
+    ck = Check('C07', 'exploration')
+    if ck.args.replay:
+        return replay(ck)
+    from verif import mesonproc as mp
+    mp.preimport()
+    scratch_root()
+    classes = set()
+    tot = {'strong': 0, 'weak': 0, 'skipped': 0, 'rejected_invalid': 0, 'accepted_overridden_invalid': 0}
+    evaluations = 0
+    skipped_cases = 0
+    # ------------------------------------------------------------------ tier A
+    if ck.want('A'):
+        specs = tier_a_tasks(ck)
+        tasks = [(sp, sh) for sp in specs for sh in range(NSHARD)]
+        fams = {}
+        multi = late_rej = stores = 0
+        sample = None
+        for (sp, sh), agg in zip(tasks, pmap(work_a_task, tasks)):
+            stores += agg['n']
+            skipped_cases += agg['skipped_cases']
+            classes |= agg['classes']
+            multi += agg['multi']
+            late_rej += agg['late_rej']
+            sample = sample or agg['sample']
+            for k, v in agg['tot'].items():
+                tot[k] += v
+            for fn, fv in agg['fams'].items():
+                f = fams.setdefault(fn, {'cases': 0, 'violating': 0})
+                f['cases'] += fv['cases']
+                f['violating'] += fv['violating']
+            for case, probs in agg['problems']:
+                report(ck, 'A', case, probs, work_a)
+            for key, n in agg.get('more', {}).items():
+                if any(k.get('status') == 'known' and k['key'] == key for k in ck.known):
+                    ck._known_hit[key] = ck._known_hit.get(key, 0) + n
+                else:
+                    ck._seen_keys[key] = ck._seen_keys.get(key, 0) + n
+                    ck.n_viol += n
+        evaluations += stores
+        ck.part('tierA', stores=stores, families=fams, cases_with_3_or_more_competing_sources=multi,
+                invalid_pending_values_rejected_when_option_appears=late_rej)
+        ck.require(multi > 1000, 'too few multi-source cases in tier A')
+        ck.require(late_rej > 0, 'no pending (late) invalid value was exercised')
+        ck.require(tot['rejected_invalid'] > 100 and tot['weak'] > 0 and tot['strong'] > 10000, 'tier A comparison counters')
+        ck.sample({'tierA_case': sample})
+    # ------------------------------------------------------------------ tier B
+    if ck.want('B'):
+        cases = tier_b_cases(ck)
+        cases.sort(key=lambda c: c['meta'].get('nsrc', 0))
+        fams = {}
+        agree = disagree = 0
+        for case, (probs, st, cls, rstage, ab) in zip(cases, pmap(work_b, cases, chunksize=4)):
+            evaluations += 1
+            classes.add('B:' + cls)
+            f = fams.setdefault(case['fam'], {'setups': 0, 'violating': 0, 'options_per_setup_max': 0})
+            f['setups'] += 1
+            f['options_per_setup_max'] = max(f['options_per_setup_max'], case['meta'].get('merged', 1))
+            for k in tot:
+                tot[k] += st[k]
+            if ab is True:
+                agree += 1
+            elif ab is False:
+                disagree += 1
+            if probs:
+                f['violating'] += 1
+                report(ck, 'B', case, probs, work_b)
+        ck.part('tierB', setups=len(cases), families=fams, tierA_same_observation=agree, tierA_differs=disagree)
+        ck.require(len(cases) > 500, 'too few tier B setups')
+        ck.require(agree > 0, 'tier A / tier B cross-validation never ran')
+        files, argv = b_tree(cases[len(cases) // 2]['scn'])
+        ck.sample({'tierB_argv': argv, 'meson.build': files['meson.build'][:600]})
+    ck.assume('reference order transcribed from Builtin-options.md ("The value is overridden in this order"), Machine-files.md '
+              '("Command line > Machine file > Build system definitions"), Build-options.md (yield, types), project/subproject yaml docs')
+    ck.assume('non-yielding subproject project option: unprefixed opt=value addresses the parent\'s option of that name, never the subproject\'s')
+    ck.assume('yielding option set through S/PS/SC/MS (not -Dsub:opt): either the parent\'s value or the addressed value is accepted (weak)')
+    ck.assume('buildtype: a lower-priority explicit debug/optimization versus a higher-priority buildtype is accepted either way (weak); '
+              'debug+optimization -> buildtype deduction is not part of the property and not compared')
+    ck.assume('tier A replicates the two inline cross-build filtering steps of Environment.__init__; tier B runs the real thing')
+    ck.assume('unspecified and skipped: unprefixed opt=value for an option only the subproject declares; integer/free-array option without value:; '
+              'repeated array elements; build.* options in native builds; sub:prefix; abs paths inside prefix; deprecated-option remapping')
+    ck.finish(evaluations=evaluations, distinct_nontrivial=len(classes),
+              rule='every subset of the documented sources (2^4 top level, 2^8 subproject) x option kinds x digit-scheme value assignments x '
+                   'native/cross x spellings; buildtype/debug/optimization listings; prefix x directory sources; every invalid-value class '
+                   'from every source; tier A on a real OptionStore, tier B through meson setup. distinct_nontrivial = distinct '
+                   '(tier, family, winning source | rejection stage) classes observed',
+              exhaustive=True, compared_strong=tot['strong'], compared_weak=tot['weak'], skipped_unspecified=tot['skipped'] + skipped_cases,
+              invalid_rejected=tot['rejected_invalid'], invalid_overridden_accepted=tot['accepted_overridden_invalid'])
+
+
+def replay(ck):
+    d = json.load(open(ck.args.replay))
+    case = d['case']
+    tier = d['tier']
+    print('replay tier %s family %s meta %s' % (tier, case['fam'], json.dumps(case['meta'], default=repr)))
+    if tier == 'A':
+        res = run_a(case['scn'], real_argparse=case.get('argparse', False))
+        jc = case
+    else:
+        from verif import mesonproc as mp
+        mp.preimport()
+        res = run_b(case['scn'], keep=True)
+        jc = b_adjust_features(case)
+        files, argv = b_tree(case['scn'])
+        print('argv:', ' '.join(argv))
+        for f, t in files.items():
+            print('--- %s\n%s' % (f, t), end='')
+    probs, st = judge(jc, res, tier)
+    print('expected:', json.dumps(jc['exp'], sort_keys=True), 'reject=' + case['reject'])
+    print('observed:', json.dumps(res['obs'], sort_keys=True, default=repr), 'rejected=%r crash=%r bad=%r' % (res['rejected'], res['crash'], res['bad']))
+    for k, w in probs:
+        print('STILL VIOLATES %s: %s' % (k, w))
+    sys.exit(1 if probs else 0)
+
+
+run_main(main)
